@@ -580,7 +580,9 @@ func main() {
 		}
 		return
 	}
-	r := hx.NewRand(7)
+	// hx.NewRand(salt) streams of neighbouring seeds are shifts of each other by one draw; derive the
+	// salt from a fully mixed draw so that different VERIF_SEED values give unrelated streams.
+	r := hx.NewRand(hx.NewRand(7).U64())
 
 	// 0. witnesses of recorded defects and hand-picked corner cases
 	for _, t := range []string{`a:"x\\"`, `a:"x\\\\"`, `a:"x\"`, `a:"\\" b:"\\"`, `"\\":"\\"`, `a@("\\")`, `a:"\\\"" `,
